@@ -1164,8 +1164,9 @@ func c08Run(r *verdict.Run, race bool, nhist, ncons int, tag string) {
 
 func checkC08(r *verdict.Run) {
 	r.Rule = "(1) many small concurrent histories (3-6 connections x 5-10 operations on 1-3 disjoint key groups; single-key read-modify-write and multi-key commands, FLUSHDB/FLUSHALL [ASYNC|SYNC] in single-group histories; unique written values) recorded at the client boundary with one monotonic clock and checked for linearizability with porcupine against the reference model (partitioned by key group; a final single-client read of every key is part of the history); " +
-		"(2) conservation runs: N x M INCR/DECR/HINCRBY sums, APPEND tokens, unique list ids pushed/popped/moved (exactly once), SMOVE between two sets under SINTERCARD/SUNION observers, MSET tag vectors under MGET observers, MSETNX/DEL all-or-nothing, RENAME ping-pong under EXISTS observers, and atomic views of large values (two distant bytes of a 1 MiB string written by one BITFIELD, a 256 KiB value overwritten by one SETRANGE, 300 hash fields set by one HSET, a 1500-element list that is only rotated, 200 keys written by one MSET and removed by one UNLINK/DEL, 300 members added by one SADD and removed by one SREM) under BITCOUNT/BITFIELD_RO/GET/HVALS/LRANGE/EXISTS/SCARD/DBSIZE/KEYS observers, the destination of SORT ... STORE under readers only (LRANGE/LLEN/LPOS, no other writer), and the same counters/sets/lists/hashes in four databases at once (per database: INCR replies a permutation of 1..N, nothing lost, DBSIZE exact; this is the only place where commands really run in parallel, one lock per database); yields are injected before/after the data store lock. distinct = overlapping command pairs actually observed + conservation kinds"
+		"(2) conservation runs: N x M INCR/DECR/HINCRBY sums, APPEND tokens, unique list ids pushed/popped/moved (exactly once), SMOVE between two sets under SINTERCARD/SUNION observers, MSET tag vectors under MGET observers, MSETNX/DEL all-or-nothing, RENAME ping-pong under EXISTS observers, and atomic views of large values (two distant bytes of a 1 MiB string written by one BITFIELD, a 256 KiB value overwritten by one SETRANGE, 300 hash fields set by one HSET, a 1500-element list that is only rotated, 200 keys written by one MSET and removed by one UNLINK/DEL, 300 members added by one SADD and removed by one SREM) under BITCOUNT/BITFIELD_RO/GET/HVALS/LRANGE/EXISTS/SCARD/DBSIZE/KEYS observers, the destination of SORT ... STORE under readers only (LRANGE/LLEN/LPOS, no other writer), and the same counters/sets/lists/hashes in four databases at once (per database: INCR replies a permutation of 1..N, nothing lost, DBSIZE exact; this is the only place where commands really run in parallel, one lock per database); directed real-time orders: a command queued in MULTI, another client's flush and re-creation of the keys, then EXEC (24 queued commands x 3 flushes, replies and state = the sequential order); yields are injected before/after the data store lock. distinct = overlapping command pairs actually observed + conservation kinds"
 	c08Run(r, false, tierPick(r, 300, 10000), tierPick(r, 9, 72), "plain")
+	queuedAcrossFlush(r, "lin-directed")
 	if r.Tier == "thorough" {
 		c08Run(r, true, 300, 18, "race-build")
 	}
